@@ -55,6 +55,10 @@ def gen_stereo_molecule(rng, n_db=None, n_chiral=None, max_extra=6):
     rng.shuffle(cands)
     for n in cands[:n_chiral]:
         chiral[n] = rng.choice(['R', 'S'])
+        # fully substituted centres (no hydrogen) are the ones that can become a single-atom fragment
+        if rng.random() < 0.5:
+            while M.free(g, n) >= 1:
+                add(rng.choice(['F', 'Cl', 'C', 'O', 'Br']), n)
     for n in g:
         d = g.nodes[n]
         h = M.hcount_for(d['element'], d['charge'], M.used(g, n))
